@@ -6,10 +6,31 @@
 From CB Require Import Spec Unstable.
 From Coq Require Import Permutation.
 From CBP Require Import Step RefDefs C02Lemmas Arith AbsLemmas AllOps FaultDefs FaultPrims FaultDropA FaultDropB FaultUser
-     Iters DrainP ExtendIo CmpHash Ctors PhysMoves MoreOps UnstableEq Access Views RefTruncate FillExtend FaultFrame SpecCorollaries.
+     Iters DrainP ExtendIo CmpHash Ctors PhysMoves MoreOps UnstableEq Access Views RefTruncate FillExtend FaultFrame SpecCorollaries LedgerSpec.
 
 
 Theorem C10_drain_forget :
   forall sb eb script, refines_op (ODrain sb eb script true).
 Proof. exact (drain_forget_op). Qed.
 Print Assumptions C10_drain_forget.
+
+Theorem C10_then_any_history :
+  forall ops s w,
+  WF s -> fault w = None -> ops_ok s ops ->
+  let '(rs, s', w') := run_history ops s w in
+  let '(srs, l', evs, nid') := spec_history (cap s) (abs s) ops (next_id w) in
+  results_ok ops srs rs /\ abs s' = l' /\ WF s' /\ cap s' = cap s /\ w' = wev w evs nid'.
+Proof. exact (history_refines). Qed.
+Print Assumptions C10_then_any_history.
+
+Theorem C10_never_destroyed_twice :
+  forall (s0 : cbuf) (w0 : world),
+  WF s0 -> fault w0 = None -> NoDup (ids (abs s0)) ->
+  (forall e, In e (abs s0) -> eid e < next_id w0) ->
+  forall ops s w L,
+  ledger_run s0 w0 ops s w L ->
+  NoDup (ids (abs s ++ lg_caller L ++ lg_destroyed L)) /\
+  Permutation (abs s ++ lg_caller L ++ lg_destroyed L) (lg_entered L) /\
+  NoDup (ids (lg_entered L)).
+Proof. exact (ledger_history exec_refines). Qed.
+Print Assumptions C10_never_destroyed_twice.
